@@ -40,8 +40,30 @@ _CATCH_THEN_BATCH = {
         {"op": "return", "e": {"var": "x1"}}]],
     "params": {"kinds": {}},
 }
-_EXTRA = [(1, dict(_base, name="recover", p_try=0.4, p_raise=0.15, p_errfut=0.15, p_item_err=0.1, nkinds=1, budget=22))]
+def _leaf(kind, key):
+    return {"new": {"task": [{"op": "yield", "x": "i%d" % key, "s": {"new": {"item": [kind, key, {"set": key}]}}}, {"op": "return", "e": {"var": "i%d" % key}}]}}
+
+
+# a diamond: one yield lists a consumer of a shared task BEFORE the shared task itself, next to a sibling with a pending request;
+# the shared task completes without a flush, so the consumer's own request must still travel in the first flush
+_DIAMOND = {
+    "roots": [[
+        {"op": "let", "h": "h1", "f": {"task": [{"op": "return", "e": 7}]}},
+        {"op": "let", "h": "h2", "f": {"task": [{"op": "yield", "x": "s1", "s": {"new": {"const": 1}}}, {"op": "return", "e": {"var": "s1"}}]}},
+        {"op": "yield", "x": "x1", "s": {"tuple": [
+            {"new": {"task": [{"op": "yield", "x": "c1", "s": {"old": "h1"}}, {"op": "yield", "x": "c2", "s": {"new": {"item": [0, 1, {"set": 1}]}}},
+                              {"op": "return", "e": {"var": "c2"}}]}},
+            {"old": "h1"},
+            {"new": {"task": [{"op": "yield", "x": "d1", "s": {"list": [{"old": "h2"}, {"old": "h1"}]}}, {"op": "yield", "x": "d2", "s": {"new": {"item": [0, 2, {"set": 2}]}}},
+                              {"op": "return", "e": {"var": "d2"}}]}},
+            {"old": "h2"},
+            _leaf(0, 3)]}},
+        {"op": "return", "e": {"var": "x1"}}]],
+    "params": {"kinds": {}},
+}
+_EXTRA = [(2, dict(_base, name="diamonds", p_old=0.6, p_let=0.35, p_item=0.4, p_const=0.2, nkinds=1, budget=22)),
+          (1, dict(_base, name="recover", p_try=0.4, p_raise=0.15, p_errfut=0.15, p_item_err=0.1, nkinds=1, budget=22))]
 
 mach.install(globals(), "C04", ("EvBefore", "EvFlush"), ("C04:",), PROFILES, n_quick=300, n_thorough=25000,
-             nontrivial=_nontrivial, case_filter=machmon.yield_only, level="proof", corpus=[_CATCH_THEN_BATCH],
-             extra_gen=mach.extra_profiles(_EXTRA, 40, 3000))
+             nontrivial=_nontrivial, case_filter=machmon.yield_only, level="proof", corpus=[_CATCH_THEN_BATCH, _DIAMOND],
+             extra_gen=mach.extra_profiles(_EXTRA, 80, 5000))
